@@ -266,11 +266,20 @@ void *array::set(size_t len, const void *base)
 			d->unref();
 			return 0;
 		}
+		/* source may be part of replaced buffer */
+		void *ptr = d->data();
+		if (base) {
+			memcpy(ptr, base, len);
+		} else {
+			memset(ptr, 0, len);
+		}
 		_buf.set_instance(d);
+		return ptr;
 	}
+	/* source may be part of reused buffer */
 	void *ptr = d->data();
 	if (base) {
-		memcpy(ptr, base, len);
+		memmove(ptr, base, len);
 	} else {
 		memset(ptr, 0, len);
 	}
